@@ -1,7 +1,7 @@
 import Shentu.Gen.EVM
 /-
   Replays the output of harness/cmd/evmdiff (single instructions executed by the real CVM interpreter) against the
-  generated definitions `Shentu.Gen.EVM.op_*`.  Validates the hand-written library model `Shentu/EVM/BigOps.lean`.
+  generated definitions `Shentu.Gen.EVM.op_*`.  Validates the hand-written library model `Shentu/Arith/BigOps.lean`.
   Usage: lake env lean --run Drivers/EVMDiff.lean <file>     (prints `FINDING ..` lines and a `STAT` summary)
 -/
 open Shentu.Gen.EVM
